@@ -2,7 +2,8 @@
    [lower] (str.lower) is an arbitrary function: the theorems hold for any.  [.._hash_key] is the
    value Python's hash() is applied to, so equal keys give equal hashes for any hash function. *)
 From Coq Require Import List Bool String ZArith Permutation.
-From FM Require Import Base.Str Model.FM Model.Queries Model.EqHash Proofs.C20Facts.
+From FM Require Import Base.Result Base.Str Model.FM Model.Queries Model.EqHash Model.PyRt Model.Loc Gen.Src_fm
+     Proofs.C20Facts Proofs.SrcEqFacts Proofs.SrcTieC20.
 Import ListNotations.
 Local Open Scope list_scope.
 
@@ -62,6 +63,68 @@ Theorem C20_permuted_copy : forall lower a b,
    fperm (root a) (root b) -> Permutation (ctcs a) (ctcs b) -> fm_eqb lower a b = true.
 Proof. exact permuted_copy_equal. Qed.
 Print Assumptions C20_permuted_copy.
+
+(* ---- the same about the TRANSLATED SOURCE of __eq__ / __lt__ / _sort_key (Gen/Src_fm.v, regenerated from
+   feature_model.py on every run; DESIGN §10).  str.lower() is ASCII lowering there. ---- *)
+Theorem C20_source_is_model :
+  (forall x y, py_Feature___eq__ x y = feature_eqb (fst x) (fst y)) /\
+  (forall x y, py_Relation___eq__ x y = relation_eqb (orel_of x) (orel_of y)) /\
+  (forall x y, py_Relation___lt__ x y = rkey_ltb (relation_sort_key (orel_of x)) (relation_sort_key (orel_of y))) /\
+  (forall a b, py_Constraint___eq__ a b = ctc_eqb str_lower a b) /\
+  (forall a b fuel, (fuel_tree (root a) <= fuel)%nat -> (fuel_tree (root b) <= fuel)%nat ->
+                    py_FeatureModel___eq__ fuel a b = Ok (fm_eqb str_lower a b)).
+Proof.
+  exact (conj Proofs.SrcFmFacts.src_feat_eq (conj src_rel_eq (conj src_rel_lt (conj src_ctc_eq src_fm_eq)))).
+Qed.
+Print Assumptions C20_source_is_model.
+
+Theorem C20_source_refl_sym : forall x y r s a b,
+  (py_Feature___eq__ x x = true /\ py_Feature___eq__ x y = py_Feature___eq__ y x) /\
+  (py_Relation___eq__ r r = true /\ py_Relation___eq__ r s = py_Relation___eq__ s r) /\
+  (py_Constraint___eq__ a a = true /\ py_Constraint___eq__ a b = py_Constraint___eq__ b a).
+Proof.
+  intros. exact (conj (source_feature_eq_refl_sym x y) (conj (source_relation_eq_refl_sym r s) (source_ctc_eq_refl_sym a b))).
+Qed.
+Print Assumptions C20_source_refl_sym.
+
+Theorem C20_source_fm_refl : forall a fuel, (fuel_tree (root a) <= fuel)%nat -> py_FeatureModel___eq__ fuel a a = Ok true.
+Proof. exact source_fm_eq_refl. Qed.
+Print Assumptions C20_source_fm_refl.
+
+Theorem C20_source_fm_sym : forall a b fuel, (fuel_tree (root a) <= fuel)%nat -> (fuel_tree (root b) <= fuel)%nat ->
+  py_FeatureModel___eq__ fuel a b = py_FeatureModel___eq__ fuel b a.
+Proof. exact source_fm_eq_sym. Qed.
+Print Assumptions C20_source_fm_sym.
+
+(* Relation.__lt__ orders the same canonical form that __eq__ compares (the defect repaired in /repo) *)
+Theorem C20_source_relation_order : forall x y z,
+  py_Relation___lt__ x x = false /\
+  (py_Relation___lt__ x y = true -> py_Relation___lt__ y z = true -> py_Relation___lt__ x z = true) /\
+  (py_Relation___lt__ x y = false -> py_Relation___lt__ y x = false -> py_Relation___eq__ x y = true).
+Proof. exact source_relation_lt_order. Qed.
+Print Assumptions C20_source_relation_order.
+
+Theorem C20_source_fm_eq_characterisation : forall a b fuel,
+  (fuel_tree (root a) <= fuel)%nat -> (fuel_tree (root b) <= fuel)%nat ->
+  (py_FeatureModel___eq__ fuel a b = Ok true <->
+   (name (root a) = name (root b)
+    /\ Permutation (map name (get_features a)) (map name (get_features b))
+    /\ Permutation (map relation_sort_key (fm_relations a)) (map relation_sort_key (fm_relations b))
+    /\ Permutation (map (ctc_key str_lower) (ctcs a)) (map (ctc_key str_lower) (ctcs b)))).
+Proof. exact source_fm_eq_characterisation. Qed.
+Print Assumptions C20_source_fm_eq_characterisation.
+
+Theorem C20_source_permuted_copy : forall a b fuel,
+  (fuel_tree (root a) <= fuel)%nat -> (fuel_tree (root b) <= fuel)%nat ->
+  fperm (root a) (root b) -> Permutation (ctcs a) (ctcs b) -> py_FeatureModel___eq__ fuel a b = Ok true.
+Proof. exact source_fm_permuted_copy. Qed.
+Print Assumptions C20_source_permuted_copy.
+
+Theorem C20_source_eq_hash : forall a b fuel,
+  (fuel_tree (root a) <= fuel)%nat -> (fuel_tree (root b) <= fuel)%nat ->
+  py_FeatureModel___eq__ fuel a b = Ok true -> fm_hash_key str_lower a = fm_hash_key str_lower b.
+Proof. exact source_fm_eq_hash. Qed.
+Print Assumptions C20_source_eq_hash.
 
 Example C20_nonvacuous :
   fperm (root ex_orig) (root ex_swapped) /\ fm_eqb str_lower ex_orig ex_swapped = true
